@@ -172,15 +172,55 @@ example : (step (stdDef .flat false) (runOps (stdDef .flat false) (fresh (stdDef
       ([.eigLb], [.model .plate])] := by
   decide
 
-/-! ### PanelAssembly (two panels + connection, built on the Panel machine) -/
+/-! ### PanelAssembly (two panels + connection, built on the Panel machine)
+
+`AOp.k0 other fin` = `calc_k0([conn=B][, finalize=False])`, `AOp.conn other fin` = `get_k0_conn([conn=B][, finalize=False])`
+(`other`: a list that is not the assembly's own `self.conn` is passed).  An `AOutcome.ok r1 r2 conn` carries the
+result tokens of the two panels and the token of the connection matrix that was added / returned: which list it
+was built from (`id`), whether it was symmetrised (`fin`) and what `calc_kt_kr` consumed from each panel. -/
 open Compmech.Lifecycle.Asm in
-/-- Order dependence found: `PanelAssembly.get_k0_conn` returns `self.k0_conn` whenever it is not `None`; a
-different `conn` passed to a later `calc_k0(conn=…)` is silently ignored. -/
-theorem asm_conn_cache_counterexample :
+/-- **Every call gets the connection matrix it asked for** — for EVERY assembly definition (any laminate offsets),
+after EVERY history of calls with any `conn=` / `finalize=` arguments: the connection matrix inside the result of
+`calc_k0(conn=…)` is built from the list of THAT call and finalized; the one returned by
+`get_k0_conn(conn=…, finalize=…)` is built from the list of that call with the `finalize` flag of that call; the one
+added by `calc_kT` / `calc_fint` is the finalized matrix of the assembly's own list (`reqConn`).  This is the
+statement the former finding `C20-asm-k0_conn-cache-ignores-conn` (cache returned whatever the first call had
+produced; repaired) contradicted. -/
+theorem asm_conn_matches_request (a : ADef) (h : List AOp) (op : AOp) (t : ConnTok)
+    (ht : connOf (astep a (arunOps a (afresh a) h) op).2 = some t) :
+    ∃ o f, reqConn op = some (o, f) ∧ t.id = connIdOf o ∧ t.fin = f :=
+  asm_conn_matches_request_aux a h op t ht
+
+open Compmech.Lifecycle.Asm in
+/-- … because `self.k0_conn` is, in every reachable state of every assembly, `None` or a FINALIZED matrix of the
+assembly's OWN connection list. -/
+theorem asm_cache_own_finalized (a : ADef) (h : List AOp) (t : ConnTok)
+    (ht : (arunOps a (afresh a) h).cache = some t) : t.id = .own ∧ t.fin = true :=
+  arunOps_cacheOwn a h _ (cacheOwn_fresh a) t ht
+
+open Compmech.Lifecycle.Asm in
+/-- what `reqConn` says -/
+example : reqConn (.k0 true false) = some (true, true) ∧ reqConn (.conn false false) = some (false, false) ∧
+    reqConn .kT = some (false, true) ∧ reqConn .fint = some (false, true) ∧ reqConn .kM = none := by decide
+
+open Compmech.Lifecycle.Asm in
+/-- The former counter-example `asm_conn_cache_counterexample`, now positive (decided on the model): `calc_k0(conn=B)`
+uses `B` as first call AND after `calc_k0()`; a following `calc_k0()` uses the own list again;
+`get_k0_conn(finalize=False)` returns the un-symmetrised sum, and `get_k0_conn()` / `calc_kT` after it the finalized
+matrix; requests for another list or with `finalize=False` leave the cache empty, respectively as it was. -/
+theorem asm_conn_cache_fixed :
     let a := stdAsm true
-    ((connOf (astep a (afresh a) (.k0 true)).2).map (·.id)) = some .other ∧
-    ((connOf (astep a (astep a (afresh a) (.k0 false)).1 (.k0 true)).2).map (·.id)) = some .own :=
-  conn_cache_counterexample_aux
+    let idfin (o : AOutcome) := (connOf o).map (fun t => (t.id, t.fin))
+    idfin (astep a (afresh a) (.k0 true true)).2 = some (.other, true) ∧
+    idfin (astep a (astep a (afresh a) (.k0 false true)).1 (.k0 true true)).2 = some (.other, true) ∧
+    idfin (astep a (arunOps a (afresh a) [.k0 false true, .k0 true true]) (.k0 false true)).2 = some (.own, true) ∧
+    idfin (astep a (afresh a) (.conn false false)).2 = some (.own, false) ∧
+    idfin (astep a (astep a (afresh a) (.conn false false)).1 (.conn false true)).2 = some (.own, true) ∧
+    idfin (astep a (astep a (afresh a) (.conn false false)).1 .kT).2 = some (.own, true) ∧
+    (arunOps a (afresh a) [.conn false false, .conn true true, .conn true false, .k0 true false]).cache = none ∧
+    ((arunOps a (afresh a) [.k0 false true, .conn true true, .conn false false]).cache.map (fun t => (t.id, t.fin))) =
+      some (.own, true) :=
+  conn_cache_fixed_aux
 
 open Compmech.Lifecycle.Asm in
 /-- Order dependence found: `get_k0_conn()` before the first `calc_k0()` derives the penalty constants from
@@ -188,34 +228,89 @@ laminates built WITHOUT offset, and that matrix is cached and added by every lat
 theorem asm_conn_order_counterexample :
     let a := stdAsm false
     let lamOf (o : AOutcome) := (connOf o).map (·.t1)
-    lamOf (astep a (afresh a) (.k0 false)).2 = some [([.ktkr], [.model .plate, .lam (.built .rep .rep .own)])] ∧
-    lamOf (astep a (astep a (afresh a) (.conn false)).1 (.k0 false)).2 =
+    lamOf (astep a (afresh a) (.k0 false true)).2 = some [([.ktkr], [.model .plate, .lam (.built .rep .rep .own)])] ∧
+    lamOf (astep a (astep a (afresh a) (.conn false true)).1 (.k0 false true)).2 =
       some [([.ktkr], [.model .plate, .lam (.built .rep .rep .zero)])] ∧
-    (astep (stdAsm true) (afresh (stdAsm true)) (.k0 false)).2 =
-      (astep (stdAsm true) (astep (stdAsm true) (afresh (stdAsm true)) (.conn false)).1 (.k0 false)).2 :=
+    (astep (stdAsm true) (afresh (stdAsm true)) (.k0 false true)).2 =
+      (astep (stdAsm true) (astep (stdAsm true) (afresh (stdAsm true)) (.conn false true)).1 (.k0 false true)).2 :=
   conn_order_counterexample_aux
+
+open Compmech.Lifecycle.Asm in
+/-- What is STILL false (the same laminate-order finding `C20-kt_kr-builds-lam-without-offset`, not the cache): with a
+non-zero laminate offset an earlier `conn=` argument shows in a later result through the laminate.  After
+`get_k0_conn()` the cached matrix (laminates without offset) is what `calc_kT` adds; after `get_k0_conn(conn=B)`
+nothing is cached and `calc_kT` — which rebuilds the laminates WITH offset first — builds another one.  Both are
+finalized matrices of the own list (`asm_conn_matches_request`).  This is why `asm_result_history_independent_partial`
+keeps its zero-offset hypothesis. -/
+theorem asm_conn_args_offset_counterexample :
+    let a := stdAsm false
+    let lamOf (o : AOutcome) := (connOf o).map (·.t1)
+    let idfin (o : AOutcome) := (connOf o).map (fun t => (t.id, t.fin))
+    lamOf (astep a (astep a (afresh a) (.conn false true)).1 .kT).2 =
+      some [([.ktkr], [.model .plate, .lam (.built .rep .rep .zero)])] ∧
+    lamOf (astep a (astep a (afresh a) (.conn true true)).1 .kT).2 =
+      some [([.ktkr], [.model .plate, .lam (.built .rep .rep .own)])] ∧
+    idfin (astep a (astep a (afresh a) (.conn false true)).1 .kT).2 = some (.own, true) ∧
+    idfin (astep a (astep a (afresh a) (.conn true true)).1 .kT).2 = some (.own, true) :=
+  conn_args_offset_counterexample_aux
 
 open Compmech.Lifecycle.Asm in
 /-- Which assembly calls can be first; after `calc_k0()` all of them succeed. -/
 theorem asm_fresh_object_characterisation (offsetZero : Bool) :
     let a := stdAsm offsetZero
     aallOps.filter (fun op => (astep a (afresh a) op).2.isOk) =
-      [.size, .k0 false, .k0 true, .kG0, .kT, .fext, .conn false, .conn true] ∧
-    aallOps.filter (fun op => (astep a (astep a (afresh a) (.k0 false)).1 op).2.isOk) = aallOps :=
+      [.size, .k0 false true, .k0 true true, .k0 false false, .k0 true false, .kG0, .kT, .fext,
+       .conn false true, .conn true true, .conn false false, .conn true false] ∧
+    aallOps.filter (fun op => (astep a (astep a (afresh a) (.k0 false true)).1 op).2.isOk) = aallOps :=
   asm_fresh_aux offsetZero
 
 open Compmech.Lifecycle.Asm in
-/-- What holds for assemblies: with zero laminate offsets on both panels and no foreign connection list ever
-passed (`calc_k0(conn=…)`, `get_k0_conn(conn=…)`), any two histories and any call: if it returns in both, it
-returns the same result.  Every panel stays within the Panel invariant; the cached connection matrix is the
-canonical one. -/
+/-- `aallOps` really lists every assembly call of the model (with every `conn=` / `finalize=` combination). -/
+theorem aallOps_total (op : AOp) : op ∈ aallOps :=
+  aallOps_complete op
+
+open Compmech.Lifecycle.Asm in
+/-- In every reachable state of an assembly with zero laminate offsets a call that returns, returns the canonical
+result `canonA a op`: a function of the definition and of the call with ITS OWN `conn=` / `finalize=` arguments —
+nothing of the history, in particular no `conn=` / `finalize=` argument of an earlier call, enters it. -/
+theorem asm_result_is_canonical (a : ADef) (hz : a.d1.offsetZero = true ∧ a.d2.offsetZero = true)
+    (h : List AOp) (op : AOp) (k : (astep a (arunOps a (afresh a) h) op).2.isOk = true) :
+    (astep a (arunOps a (afresh a) h) op).2 = canonA a op :=
+  asm_result_canonical_aux a hz h op k
+
+open Compmech.Lifecycle.Asm in
+/-- **History independence for assemblies** (after the repair of the connection cache).  With zero laminate offsets
+on both panels: ANY two histories — any calls, any `conn=` lists, any `finalize=` flags, any length — and any call:
+if it returns in both, it returns the same result.  (The restriction "no foreign connection list ever passed" of the
+earlier version is gone.)  Partial: it says nothing when the call raises (`asm_fresh_object_characterisation`), and
+the zero-offset hypothesis cannot be dropped — `asm_conn_order_counterexample`,
+`asm_conn_args_offset_counterexample` (finding `C20-kt_kr-builds-lam-without-offset`). -/
 theorem asm_result_history_independent_partial (a : ADef)
     (hz : a.d1.offsetZero = true ∧ a.d2.offsetZero = true) (h1 h2 : List AOp) (op : AOp)
-    (o1 : ∀ o ∈ h1, ownConn o = true) (o2 : ∀ o ∈ h2, ownConn o = true) (oo : ownConn op = true)
     (k1 : (astep a (arunOps a (afresh a) h1) op).2.isOk = true)
     (k2 : (astep a (arunOps a (afresh a) h2) op).2.isOk = true) :
     (astep a (arunOps a (afresh a) h1) op).2 = (astep a (arunOps a (afresh a) h2) op).2 :=
-  asm_history_independent_aux a hz h1 h2 op o1 o2 oo k1 k2
+  asm_history_independent_aux a hz h1 h2 op k1 k2
+
+/-! Non-vacuity of `asm_result_history_independent_partial` / `asm_result_is_canonical` /
+`asm_conn_matches_request`: real histories full of foreign lists and `finalize=False`, calls that return, the
+result spelled out. -/
+open Compmech.Lifecycle.Asm in
+example :
+    let a := stdAsm true
+    let h := [AOp.conn false false, .k0 true true, .conn true false, .k0 true false, .kM]
+    (astep a (arunOps a (afresh a) h) (.k0 false true)).2.isOk = true ∧
+    (astep a (afresh a) (.k0 false true)).2.isOk = true ∧
+    (astep a (arunOps a (afresh a) h) (.k0 false true)).2 = (astep a (afresh a) (.k0 false true)).2 ∧
+    (astep a (arunOps a (afresh a) h) (.k0 false true)).2 =
+      .ok [([.fk0], [.model .plate, .lam (.built .rep .rep .zero)])]
+          [([.fk0], [.model .plate, .lam (.built .rep .rep .zero)])]
+          (some ⟨.own, true, [([.ktkr], [.model .plate, .lam (.built .rep .rep .zero)])],
+            [([.ktkr], [.model .plate, .lam (.built .rep .rep .zero)])]⟩) ∧
+    connOf (astep a (arunOps a (afresh a) h) (.conn true false)).2 =
+      some ⟨.other, false, [([.ktkr], [.model .plate, .lam (.built .rep .rep .zero)])],
+        [([.ktkr], [.model .plate, .lam (.built .rep .rep .zero)])]⟩ := by
+  decide
 
 /-! ### StiffPanelBay (bay-level `model`, `size`, normalisation of the skin panels' `r`) -/
 open Compmech.Lifecycle.Bay in
